@@ -582,6 +582,13 @@ class Proc(object):
                     return ("(%s %s)" % (m[0], recv), "Str")
                 if f.attr == "split" and len(e.args) == 1 and isinstance(e.args[0], ast.Constant) and isinstance(e.args[0].value, str) and len(e.args[0].value) == 1:
                     return ("(pySplit1 %s '%s')" % (recv, e.args[0].value), ("List", "Str"))
+        if self.seg(f) in self.spec.get("seg_ops", {}):
+            # a call identified by its text (a method of a helper object the function creates): an operation handed to the translated function
+            lname, argtys, rty = self.spec["seg_ops"][self.seg(f)]
+            if len(argtys) != len(e.args):
+                raise Untranslatable("arity of %s" % self.seg(f))
+            args = [self.coerce(*self.expr(a, env), w) for a, w in zip(e.args, argtys)]
+            return ("(%s %s)" % (lname, " ".join(args)), rty)
         if fname in self.spec.get("rec_constructors", {}):
             rec, argtys = self.spec["rec_constructors"][fname]
             if len(e.args) != len(argtys):
@@ -822,6 +829,16 @@ class Proc(object):
             if ty == ("List", "OV"):
                 return "(Tok.mk %s %s)" % (lstr(fmt + nl), t)
             return "(Tok.mk %s [%s])" % (lstr(fmt + nl), self.ov(r, env))
+        # TEMPLATE.format(a, b)  with positional fields {0} {1}
+        if isinstance(e, ast.Call) and isinstance(e.func, ast.Attribute) and e.func.attr == "format" and e.args and not e.keywords:
+            fmt = self.const_str(e.func.value, env)
+            if fmt is None:
+                raise Untranslatable("format template is not a constant")
+            fields = re.findall(r"\{(\d+)(:[^}]*)?\}", fmt)
+            if len(re.findall(r"\{", fmt)) != len(fields) or any(int(i) >= len(e.args) for i, _ in fields) or set(int(i) for i, _ in fields) != set(range(len(e.args))):
+                raise Untranslatable("positional template fields")
+            args = [self.ov(e.args[int(i)], env) for i, _ in fields]
+            return "(Tok.mk %s [%s])" % (lstr(re.sub(r"\{\d+(:[^}]*)?\}", lambda m: "{%s}" % (m.group(1) or ""), fmt) + nl), ", ".join(args))
         # TEMPLATE.format(name = v, ...)
         if isinstance(e, ast.Call) and isinstance(e.func, ast.Attribute) and e.func.attr == "format" and not e.args:
             fmt = self.const_str(e.func.value, env)
@@ -1514,6 +1531,7 @@ CP_REC = {"CpRec": {"tabulation": ("tabulation", ("Rec", "TabSec"))},
           "TabSec": {"cutoff": ("cutoff", ("Opt", "Rat")), "nr": ("nr", ("Opt", "Int")), "cutoff_rho": ("cutoff_rho", ("Opt", "Rat")), "nrho": ("nrho", ("Opt", "Int"))},
           "RCut": {"cutoff": ("cutoff", "Rat"), "nr": ("nr", "Int")},
           "RRhoCut": {"cutoff": ("cutoff", "Rat"), "nr": ("nr", "Int"), "cutoff_rho": ("cutoff_rho", "Rat"), "nrho": ("nrho", "Int")}}
+REG_REC = {"DefRec": {"signature": ("signature", ("Rec", "SigRec"))}, "SigRec": {"label": ("label", "Str")}, "TDefRec": {"name": ("name", "Str")}, "FuncObj": {}, "FormObj": {}}
 ENT_REC = {"PairEnt": {"species": ("species", ("List", "Str"))}, "ElEnt": {"species": ("species", "Str")}}
 CFG_REC = {"CfgRec": {}}
 CFG_METHODS = {("CfgRec", "has_section"): ("cfgHas", ["Str"], "Bool"), ("CfgRec", "__getitem__"): ("cfgKeys", ["Str"], ("List", "Str")),
@@ -1762,6 +1780,9 @@ PROCS = [
                  ("species", "Unit"), ("exclude_flag", "Unit")],
          ret=("Except", "OvErr", ("Prod", ("List", ("Rec", "OvRec")), ("List", ("Rec", "OvRec")))), records=INI_REC, implicit=[("removeWs", ("Fun", ["Str"], "Str"))],
          locals={"override_dict": ("ODict", ("Prod", "Str", "Str"), ("Rec", "OvRec")), "additional_list": ("List", ("Rec", "OvRec"))}),
+    # ---- C18: plotToFile
+    dict(name="plot_to_file", file="__init__.py", func="plotToFile", writer=True, inout="fileobj",
+         params=[("fileobj", "Stream"), ("lowx", "Rat"), ("highx", "Rat"), ("func", ("Rec", "FnRec")), ("steps", "Int")], ret="Stream", records=EAM_REC, methods=EAM_METHODS),
     # ---- C11 / C16: the factories' defaults and layout checks
     dict(name="pair_extract_cutoffs", file="config/_tabulation_factories.py", func="PairTabulationFactory.extract_cutoffs", drop_logging=True,
          params=[("cp", ("Rec", "CpRec"))], ret=("Rec", "RCut"), records=CP_REC, rec_constructors={"RCutoffTuple": ("RCut", ["Rat", "Int"])}),
@@ -1774,6 +1795,27 @@ PROCS = [
     dict(name="lammps_extract_cutoffs", file="config/_tabulation_factories.py", func="LAMMPS_PairTabulationFactory.extract_cutoffs",
          params=[("cp", ("Rec", "CpRec"))], ret=("Except", "FactoryErr", ("Rec", "RCut")), records=CP_REC, super_calls={"extract_cutoffs": "pair_extract_cutoffs"},
          raises=[("needs at least two rows", "FactoryErr.fewerThanThreePoints")]),
+    # ---- C20: the registry's label checks
+    dict(name="build_potential_forms", file="config/_potential_form_registry.py", func="Potential_Form_Registry._build_potential_forms",
+         params=[("definitions", ("List", ("Rec", "DefRec")))], ret=("Except", "RegErr", ("AssocL", "Str", ("Rec", "FormObj"))), records=REG_REC,
+         implicit=[("mkFunc", ("Fun", [("Rec", "DefRec")], ("Rec", "FuncObj"))), ("mkForm", ("Fun", [("Rec", "FuncObj")], ("Rec", "FormObj")))],
+         ops={"_Cexptrk_Potential_Function": ("mkFunc", [("Rec", "DefRec")], ("Rec", "FuncObj")), "Potential_Form": ("mkForm", [("Rec", "FuncObj")], ("Rec", "FormObj"))},
+         raises=[("Two potential forms have the same label", "RegErr.sameCustomLabel")], locals={"potential_forms": ("AssocL", "Str", ("Rec", "FormObj"))}),
+    dict(name="build_table_forms", file="config/_potential_form_registry.py", func="Potential_Form_Registry._build_table_forms",
+         params=[("self._potential_forms", ("AssocL", "Str", ("Rec", "FormObj"))), ("definitions", ("List", ("Rec", "TDefRec")))],
+         ret=("Except", "RegErr", ("AssocL", "Str", ("Rec", "FormObj"))), records=REG_REC, skip_assign_from=["Table_Form_Builder"],
+         implicit=[("mkTable", ("Fun", [("Rec", "TDefRec")], ("Rec", "FormObj")))], seg_ops={"builder.create_potential_form": ("mkTable", [("Rec", "TDefRec")], ("Rec", "FormObj"))},
+         raises=[("has the same label as another potential form", "RegErr.tableLabelTaken")], locals={"table_forms": ("AssocL", "Str", ("Rec", "FormObj"))}),
+    dict(name="check_labels_case", file="config/_potential_form_registry.py", func="Potential_Form_Registry._check_labels_differ_by_more_than_case",
+         params=[("self._potential_forms", ("Set", "Str"))], ret=("Except", "RegErr", "Unit"),
+         implicit=[("lower", ("Fun", ["Str"], "Str"))], methods={("Str", "lower"): ("lower", [], "Str")},
+         raises=[("labels are not case-sensitive", "RegErr.caseOnlyDifference")], locals={"seen": ("AssocL", "Str", "Str")}),
+    # ---- C16: parameter names of a [Potential-Form] signature
+    dict(name="signature_names_check", file="config/_cexprtk_potential_function.py", func="_Cexptrk_Potential_Function._init_symbol_table",
+         truncate_at="for pn in parameter_names:\n      try:", result_vars=[], skip_assign_from=["Symbol_Table"], sig_from_locals=True,
+         given=["parameter_names", "label"], params=[("parameter_names", ("List", "Str")), ("label", "Str")], ret=("Except", "SigErr", "Unit"),
+         implicit=[("lower", ("Fun", ["Str"], "Str"))], methods={("Str", "lower"): ("lower", [], "Str")},
+         raises=[("Name clash in signature", "SigErr.sameVariable")], locals={"seen": ("AssocL", "Str", "Str")}),
     # ---- C16: target synonyms
     dict(name="init_target", file="config/_config_parser.py", func="_TabulationSection._init_target",
          params=[("target", ("Opt", "Str"))], class_dicts=["_target_synonyms"], skip_assign_from=["_get_or_none"], sig_from_locals=True,
@@ -2013,6 +2055,32 @@ def splitChars (c : Char) : List Char → List (List Char)
       | p :: ps => (x :: p) :: ps
 def pySplit1 (s : String) (c : Char) : List String := (splitChars c s.toList).map String.ofList
 
+/-- a `[Potential-Form]` definition / a `[Table-Form:NAME]` definition as the registry reads them; the function and form objects it builds are opaque -/
+structure SigRec where
+  label : String
+deriving Repr, DecidableEq
+structure DefRec where
+  signature : SigRec
+  id : Nat
+deriving Repr, DecidableEq
+structure TDefRec where
+  name : String
+  id : Nat
+deriving Repr, DecidableEq
+structure FuncObj where
+  id : Nat
+deriving Repr, DecidableEq
+structure FormObj where
+  id : Nat
+deriving Repr, DecidableEq
+inductive RegErr where
+  | sameCustomLabel | tableLabelTaken | caseOnlyDifference
+deriving DecidableEq, Repr
+
+inductive SigErr where
+  | sameVariable
+deriving DecidableEq, Repr
+
 /-- the layout complaints of the tabulation factories -/
 inductive FactoryErr where
   | notMultipleOfFour | fourRowsOrFewer | fewerThanThreePoints
@@ -2086,7 +2154,7 @@ def prepare(spec, src, tree):
         idx = next((i for i, st in enumerate(body) if (ast.get_source_segment(src, st) or "").replace(" ", "").startswith(spec["truncate_at"].replace(" ", ""))), None)
         if idx is None:
             raise Untranslatable("no statement starting with %s" % spec["truncate_at"])
-        ret = ast.Return(value=ast.Tuple(elts=[ast.Name(id=n, ctx=ast.Load()) for n in spec["result_vars"]], ctx=ast.Load()))
+        ret = ast.Return(value=ast.Tuple(elts=[ast.Name(id=n, ctx=ast.Load()) for n in spec["result_vars"]], ctx=ast.Load()) if spec["result_vars"] else None)
         ret._synth = True
         ast.copy_location(ret, body[idx])
         ast.fix_missing_locations(ret)
